@@ -35,6 +35,7 @@ import (
 	"seehuhn.de/go/sfnt/glyph"
 	"seehuhn.de/go/sfnt/head"
 	"seehuhn.de/go/sfnt/internal/debug"
+	"seehuhn.de/go/sfnt/maxp"
 	"seehuhn.de/go/sfnt/opentype/classdef"
 	"seehuhn.de/go/sfnt/opentype/coverage"
 	"seehuhn.de/go/sfnt/opentype/gdef"
@@ -303,6 +304,57 @@ func miniGlyf(r *v.Rand) *sfnt.Font {
 	return f
 }
 
+// sizedGlyph is a one-contour triangle whose record in the glyf table is
+// exactly size bytes long (size even, >= 24); the length is adjusted through
+// the instruction bytes.
+func sizedGlyph(size int, r *v.Rand) *glyf.Glyph {
+	k := size - 23 // 10 header + 2 endPts + 2 instruction length + 3 flags + 6 coordinates
+	enc := []byte{0, 2, byte(k >> 8), byte(k)}
+	for i := 0; i < k; i++ {
+		enc = append(enc, 0x7A) // ROLL
+	}
+	enc = append(enc, 0x37, 0x37, 0x37)
+	enc = append(enc, 10, byte(r.Range(100, 250)), 0)
+	enc = append(enc, 10, 0, byte(r.Range(100, 250)))
+	return &glyf.Glyph{
+		Rect16: funit.Rect16{LLx: 10, LLy: 10, URx: 260, URy: 260},
+		Data:   glyf.SimpleGlyph{NumContours: 1, Encoded: enc},
+	}
+}
+
+// sizedGlyf: a TrueType font whose encoded glyf table is exactly glyfSize
+// bytes long (the boundaries of the short loca format lie at 65535*1 and
+// 65535*2 bytes).
+func sizedGlyf(glyfSize int, r *v.Rand) *sfnt.Font {
+	if glyfSize%2 != 0 || glyfSize < 4096 || glyfSize > 1<<20 {
+		panic("unsupported glyf table size")
+	}
+	n := v.Pick(r, []int{8, 16, 33, 64})
+	each := (glyfSize / n) &^ 1
+	if each > 60000 {
+		each = 60000
+		n = glyfSize/each + 1
+		each = (glyfSize / n) &^ 1
+	}
+	o := &glyf.Outlines{Tables: map[string][]byte{}, Maxp: &maxp.TTFInfo{MaxPoints: 3, MaxContours: 1, MaxZones: 2, MaxStackElements: 8, MaxSizeOfInstructions: 65535}}
+	o.Glyphs = append(o.Glyphs, nil) // empty .notdef
+	o.Widths = append(o.Widths, 500)
+	rest := glyfSize
+	for i := 0; i < n; i++ {
+		size := each
+		if i == n-1 {
+			size = rest
+		}
+		rest -= size
+		o.Glyphs = append(o.Glyphs, sizedGlyph(size, r))
+		o.Widths = append(o.Widths, funit.Int16(300+i%7))
+	}
+	if enc := o.Glyphs.Encode(); len(enc.GlyfData) != glyfSize {
+		panic(fmt.Sprintf("glyf table has %d bytes, wanted %d", len(enc.GlyfData), glyfSize))
+	}
+	return &sfnt.Font{Outlines: o}
+}
+
 // bigGlyf: a TrueType font at the upper end of the glyph-count range; most
 // glyphs are empty, a few are copies of real outlines.
 func bigGlyf(r *v.Rand) *sfnt.Font {
@@ -474,6 +526,8 @@ func buildTemplate(t tpl) (f *sfnt.Font, err error) {
 		f = miniCFF(r.Fork("glyphs"), true)
 	case t.Name == "glyfmini":
 		f = miniGlyf(r.Fork("glyphs"))
+	case t.Name == "glyfsize":
+		f = sizedGlyf(int(t.Seed), r.Fork("glyphs"))
 	case t.Name == "glyfbig":
 		f = bigGlyf(r.Fork("glyphs"))
 	case t.Name == "cffbig":
